@@ -2,6 +2,8 @@
   C20 — Unlikely-content pruning applies only if enough content remains, else fallback.
 -/
 import Distill.Props.DomHelpers
+import Distill.Model.Candidates
+import Distill.Proofs.Style
 import Distill.Proofs.Prune
 import Distill.Model.Extract
 namespace Distill.C20
@@ -83,5 +85,64 @@ theorem stable_needed :
     convertNode { skipUnlikely := true } exA [] false exBad ≠
       convertNode { skipUnlikely := false } exA [] false (prune exA [] false exBad) := by
   decide +kernel
+
+
+/-! ### which elements are "unlikely": the converter's word lists
+
+`rxUnlikely`, `rxMaybe` and `rxByline` above are atoms.  `Model/Candidates.lean` opens them: each
+expression is `(?i)` and an alternation of literal words, read from the regenerated pattern. -/
+
+/-- the three patterns as they stand in the source -/
+theorem candidate_regexps_tie :
+    Gen.modelledRegexps.lookup "internal/converter.rxUnlikelyCandidates" = some "(?i)-ad-|ai2html|banner|breadcrumbs|combx|comment|community|cover-wrap|disqus|extra|footer|gdpr|header|legends|menu|related|remark|replies|rss|shoutbox|sidebar|skyscraper|social|sponsor|supplemental|ad-break|agegate|pagination|pager|popup|yom-remote" ∧
+    Gen.modelledRegexps.lookup "internal/converter.rxOkMaybeItsACandidate" = some "(?i)and|article|body|column|content|main|shadow" ∧
+    Gen.modelledRegexps.lookup "internal/converter.rxByline" = some "(?i)byline|author|dateline|writtenby|p-author" := by
+  refine ⟨?_, ?_, ?_⟩ <;> decide +kernel
+
+/-- every pattern is an alternation of literal lower-case words (so "matches" is "a word occurs"),
+and these are the words -/
+theorem candidate_words_read :
+    Cand.unlikelyWords.map (·.length) = some 31 ∧
+    Cand.maybeWords = some ["and".toList, "article".toList, "body".toList, "column".toList, "content".toList, "main".toList, "shadow".toList] ∧
+    Cand.bylineWords = some ["byline".toList, "author".toList, "dateline".toList, "writtenby".toList, "p-author".toList] := by
+  refine ⟨?_, ?_, ?_⟩ <;> decide +kernel
+
+/-- `isByline`, `isValidByline`, `isElementWithoutContent` as they stand -/
+theorem candidate_bodies_tie : Gen.candidateBodies = Gen.candidateBodiesExpected := by rfl
+
+theorem occurs_spelled (w s : List Char) (h : Style.FoldsTo s w) (a b : List Char) :
+    Cand.occurs w (a ++ s ++ b) = true := by
+  induction a with
+  | nil =>
+    have hl := Style.lit_append h b
+    simp only [List.nil_append]
+    cases hsb : s ++ b with
+    | nil => rw [hsb] at hl; simp [Cand.occurs, hl]
+    | cons c cs => rw [hsb] at hl; simp [Cand.occurs, hl]
+  | cons c cs ih =>
+    simp only [List.cons_append, Cand.occurs, Bool.or_eq_true]
+    right
+    simpa using ih
+
+/-- **A listed word marks the element in every spelling and position**: if the class / id string
+contains a word of the list, in any case (and with the letters Unicode folds onto `s` and `k`),
+with anything before and after it, the expression matches -/
+theorem listed_word_matches (ws : List (List Char)) (w s a b : List Char) (hw : w ∈ ws)
+    (h : Style.FoldsTo s w) : Cand.matchAlt ws (a ++ s ++ b) = true := by
+  unfold Cand.matchAlt
+  exact List.any_eq_true.mpr ⟨w, hw, occurs_spelled w s h a b⟩
+
+/-- … and a string in which no word of the list occurs does not -/
+theorem no_word_no_match (ws : List (List Char)) (s : List Char) (h : ∀ w ∈ ws, Cand.occurs w s = false) :
+    Cand.matchAlt ws s = false := by
+  unfold Cand.matchAlt
+  cases hh : ws.any (Cand.occurs · s)
+  · rfl
+  · obtain ⟨w, hw, ho⟩ := List.any_eq_true.mp hh
+    rw [h w hw] at ho; cases ho
+
+example : Cand.answers "Main SIDEBAR" "x" "" "" "By Jane" = some ⟨true, true, false⟩ := by decide +kernel
+example : Cand.answers "story" "p-Author" "" "" "By Jane" = some ⟨false, false, true⟩ := by decide +kernel
+example : Cand.answers "story" "" "" "" "" = some ⟨false, false, false⟩ := by decide +kernel
 
 end Distill.C20
